@@ -104,8 +104,16 @@ def coq_build(timeout=1500):
            'make -k -j%d COQC=\'timeout 600 coqc\' 2>&1"' % (WORK, NPROC))
     rc, out = sh(cmd, timeout=timeout, cwd=COQ)
     failed = []
+    for m in re.finditer(r'\*\*\* \[[^\]]*?:\s*(theories/[\w/]+)\.vo\] Error', out):
+        f = m.group(1) + '.v'
+        if f not in failed:
+            failed.append(f)
+        try:        # a stale .vo from an earlier build must not be mistaken for a checked proof
+            os.remove(os.path.join(COQ, m.group(1) + '.vo'))
+        except OSError:
+            pass
     for f in coq_files():
-        if not os.path.exists(os.path.join(COQ, f[:-2] + '.vo')):
+        if not os.path.exists(os.path.join(COQ, f[:-2] + '.vo')) and f not in failed:
             failed.append(f)
     return (rc == 0 and not failed), tlog + out, failed
 
@@ -121,7 +129,7 @@ def coq_deps(vfile):
         p = os.path.join(COQ, f)
         if not os.path.exists(p):
             continue
-        for m in re.finditer(r'From\s+BNP\s+Require\s+(?:Import|Export)?\s*([^.]*(?:\.[A-Za-z_][\w]*)*[^.]*)\.\s', open(p).read() + ' '):
+        for m in re.finditer(r'From\s+BNP\s+Require\s+(?:Import|Export)?\s*([^\n]*?)\.[ \t]*(?:\n|$|\(\*)', open(p).read()):
             for mod in m.group(1).split():
                 if re.match(r'^[A-Za-z_][\w.]*$', mod):
                     todo.append('theories/' + mod.replace('.', '/') + '.v')
